@@ -497,6 +497,10 @@ def build(cfg, chooser):
         conn.sort(key=lambda e: 0)  # stable no-op: keep documented
     for ed in conn:
         led.edges[ed["id"]].connect(led.nodes[ed["src"]], led.nodes[ed["dst"]])
+    if cfg.get("rewire"):
+        # the wiring step applied a second time (documented: connect(..., reconnect=True)) must leave the model as it was
+        for ed in conn:
+            led.edges[ed["id"]].connect(led.nodes[ed["src"]], led.nodes[ed["dst"]], reconnect=True)
     return env, led
 
 
